@@ -964,4 +964,138 @@ theorem sol_iff_satisfies {C : Constraints} (ha : antisymB C = true) (S : List I
       · rename_i h2; exact decide_eq_true (h b a (by simpa using h2) hb ha')
       · rfl
 
+/-! ### the possible results of the code's `min(..)` -/
+
+theorem legalChoice_mem {c : Cands} {nodes : List Int} {x : Int} (h : legalChoice c nodes x = true) : x ∈ nodes := by
+  unfold legalChoice at h
+  rw [Bool.and_eq_true] at h
+  simpa using h.1
+
+/-- the keys `min(candidates[n], key=len)` can return -/
+def keySets (c : Cands) (y : Int) : List NodeSet := if (c.get y).isEmpty then [[]] else shortestSets (c.get y)
+
+theorem foldl_min_length (rest : List NodeSet) (s : NodeSet) :
+    rest.foldl (fun best x => if x.length < best.length then x else best) s ∈ s :: rest
+    ∧ ∀ s' ∈ s :: rest,
+        (rest.foldl (fun best x => if x.length < best.length then x else best) s).length ≤ s'.length := by
+  induction rest generalizing s with
+  | nil => simp
+  | cons a rest ih =>
+    rw [List.foldl_cons]
+    by_cases hlt : a.length < s.length
+    · simp only [hlt, if_true]
+      obtain ⟨h1, h2⟩ := ih a
+      refine ⟨List.mem_cons_of_mem _ h1, ?_⟩
+      intro s' hs'
+      rcases List.mem_cons.1 hs' with rfl | hs'
+      · have := h2 a (by simp); omega
+      · exact h2 s' hs'
+    · simp only [hlt, if_false]
+      obtain ⟨h1, h2⟩ := ih s
+      refine ⟨?_, ?_⟩
+      · rcases List.mem_cons.1 h1 with h | h
+        · rw [h]; simp
+        · exact List.mem_cons_of_mem _ (List.mem_cons_of_mem _ h)
+      · intro s' hs'
+        rcases List.mem_cons.1 hs' with rfl | hs'
+        · exact h2 s' (by simp)
+        · rcases List.mem_cons.1 hs' with rfl | hs'
+          · have := h2 s (by simp); omega
+          · exact h2 s' (List.mem_cons_of_mem _ hs')
+
+theorem smallest_mem_keySets (c : Cands) (y : Int) : smallest (c.get y) ∈ keySets c y := by
+  unfold keySets
+  cases hcs : c.get y with
+  | nil => simp [smallest]
+  | cons s rest =>
+    have := foldl_min_length rest s
+    simp only [List.isEmpty_cons, Bool.false_eq_true, if_false, shortestSets, List.mem_filter, List.all_eq_true,
+      decide_eq_true_eq, smallest]
+    exact this
+
+theorem properSubset_iff (a b : NodeSet) : properSubset a b = true ↔ (∀ x ∈ a, x ∈ b) ∧ ¬ ∀ x ∈ b, x ∈ a := by
+  simp [properSubset, List.all_eq_true]
+
+theorem properSubset_trans {a b c : NodeSet} (h1 : properSubset a b = true) (h2 : properSubset b c = true) :
+    properSubset a c = true := by
+  rw [properSubset_iff] at *
+  refine ⟨fun x hx => h2.1 x (h1.1 x hx), ?_⟩
+  intro h
+  exact h1.2 (fun x hx => h x (h2.1 x hx))
+
+/-- the result of `min` with the frozenset keys `k`: nothing is strictly below it -/
+theorem foldl_min_minimal (k : Int → NodeSet) (rest : List Int) (u : Int) :
+    let r := rest.foldl (fun best x => if properSubset (k x) (k best) then x else best) u
+    (r = u ∨ properSubset (k r) (k u) = true) ∧ ∀ y ∈ u :: rest, properSubset (k y) (k r) = false := by
+  induction rest generalizing u with
+  | nil =>
+    refine ⟨Or.inl rfl, ?_⟩
+    intro y hy
+    have : y = u := by simpa using hy
+    subst this
+    simp only [List.foldl_nil]
+    cases h : properSubset (k y) (k y) with
+    | false => rfl
+    | true => rw [properSubset_iff] at h; exact absurd h.1 h.2
+  | cons a rest ih =>
+    intro r
+    by_cases hlt : properSubset (k a) (k u) = true
+    · have hr : r = rest.foldl (fun best x => if properSubset (k x) (k best) then x else best) a := by
+        simp only [r, List.foldl_cons, hlt, if_true]
+      obtain ⟨h1, h2⟩ := ih a
+      rw [← hr] at h1 h2
+      have hru : properSubset (k r) (k u) = true := by
+        rcases h1 with h | h
+        · rw [h]; exact hlt
+        · exact properSubset_trans h hlt
+      refine ⟨Or.inr hru, ?_⟩
+      intro y hy
+      rcases List.mem_cons.1 hy with rfl | hy
+      · cases h : properSubset (k y) (k r) with
+        | false => rfl
+        | true =>
+          have := properSubset_trans h hru
+          rw [properSubset_iff] at this; exact absurd this.1 this.2
+      · exact h2 y hy
+    · have hr : r = rest.foldl (fun best x => if properSubset (k x) (k best) then x else best) u := by
+        simp only [r, List.foldl_cons, hlt, Bool.false_eq_true, if_false]
+      obtain ⟨h1, h2⟩ := ih u
+      rw [← hr] at h1 h2
+      refine ⟨h1, ?_⟩
+      intro y hy
+      rcases List.mem_cons.1 hy with rfl | hy
+      · exact h2 y (by simp)
+      · rcases List.mem_cons.1 hy with rfl | hy
+        · cases h : properSubset (k y) (k r) with
+          | false => rfl
+          | true =>
+            exfalso
+            rcases h1 with h1 | h1
+            · rw [h1] at h; exact hlt h
+            · exact hlt (properSubset_trans h h1)
+        · exact h2 y (List.mem_cons_of_mem _ hy)
+
+/-- **The deterministic rule of the model is one of the possible results of the code's `min(..)`**:
+`pickMin` passes the check `legalChoice` applied to the choices recorded from the real run. -/
+theorem pickMin_legal (c : Cands) (nodes : List Int) (h : nodes ≠ []) : legalChoice c nodes (pickMin c nodes) = true := by
+  cases nodes with
+  | nil => exact absurd rfl h
+  | cons u rest =>
+    have hmem := pickMin_mem c (u :: rest) h
+    obtain ⟨_, hmin⟩ := foldl_min_minimal (fun y => smallest (c.get y)) rest u
+    unfold legalChoice
+    rw [Bool.and_eq_true]
+    refine ⟨by simpa using hmem, ?_⟩
+    rw [List.any_eq_true]
+    refine ⟨smallest (c.get (pickMin c (u :: rest))), smallest_mem_keySets c _, ?_⟩
+    rw [List.all_eq_true]
+    intro y hy
+    rw [Bool.or_eq_true]
+    right
+    rw [List.any_eq_true]
+    refine ⟨smallest (c.get y), smallest_mem_keySets c y, ?_⟩
+    have := hmin y hy
+    simp only [pickMin]
+    rw [this]; rfl
+
 end C06I
